@@ -2,9 +2,9 @@
 import json, os, subprocess, sys
 
 V = os.path.dirname(os.path.dirname(os.path.abspath(__file__)))
-BASIC = {"i32": "1", "u32": "1", "usize": "1", "f32": "1.5", "bool": "true", "Name": "/N", "PdfString": "(s)", "Rectangle": "[0 0 1 1]",
-         "Dictionary": "<< /D 1 >>", "Primitive": "1", "Matrix": "[1 0 0 1 0 0]", "Date": "(D:20240229235958+05'30)",
-         "FontType": "/Type1", "Counter": "/D", "Rect": "[0 0 1 1]", "StructType": "/P"}
+BASIC = {"i32": "1", "u32": "1", "usize": "1", "f32": "1.5", "bool": "true", "Name": "/N", "PdfString": "(s)", "Rectangle": "[1 2 30 40]",
+         "Dictionary": "<< /D 1 >>", "Primitive": "1", "Matrix": "[1 2 3 4 5 6]", "Date": "(D:20240229235958+05'30)",
+         "FontType": "/Type1", "Counter": "/D", "Rect": "[1 2 30 40]", "StructType": "/P"}
 # aux objects every test file contains: 50 generic dictionary, 51 /Pages node, 52 stream
 AUX = {50: "<< /G 1 >>", 51: "<< /Type /Pages /Kids [] /Count 0 >>"}
 
